@@ -9,6 +9,7 @@ import (
 	"os"
 	"path/filepath"
 	"runtime/debug"
+	"runtime/pprof"
 	"sort"
 	"strconv"
 	"strings"
@@ -39,6 +40,11 @@ func main() {
 		sort.Strings(ids)
 		fmt.Println(strings.Join(ids, " "))
 		return
+	}
+	if pf := os.Getenv("NAGA_PROF"); pf != "" {
+		f, _ := os.Create(pf)
+		pprof.StartCPUProfile(f)
+		defer pprof.StopCPUProfile()
 	}
 	if *dump != "" {
 		abs, _ := filepath.Abs(*repo)
@@ -154,6 +160,7 @@ func main() {
 			}
 		}
 	}()
+	pprof.StopCPUProfile()
 	os.Exit(exit)
 }
 
